@@ -43,9 +43,21 @@ fn ip_bytes(ip: &IpAddr) -> Vec<u8> {
     }
 }
 
+/// `copy_raw_name` is documented to *append* the name and to return the length of the name: it is
+/// called on a vector that already holds 0..3 marker bytes (depending on the record's offset). A damaged
+/// marker is reported as an impossible length.
+fn raw_name_appended<T: DNSIterable + TypedIterable>(it: &T) -> (Vec<u8>, usize) {
+    let pre = it.offset().unwrap_or(0) % 4;
+    let mut v = vec![0xee; pre];
+    let l = it.copy_raw_name(&mut v);
+    if v.len() < pre || v[..pre].iter().any(|&b| b != 0xee) {
+        return (v, usize::MAX);
+    }
+    (v.split_off(pre), l)
+}
+
 fn obs_rr<T: DNSIterable + TypedIterable + RdataIterable>(it: &T) -> ObsRec {
-    let mut raw_name = vec![];
-    let raw_name_len = it.copy_raw_name(&mut raw_name);
+    let (raw_name, raw_name_len) = raw_name_appended(it);
     let (rd_ip, rd_data) = match it.rr_rd() {
         Ok(RawRRData::IpAddr(ip)) => (Some(ip_bytes(&ip)), None),
         Ok(RawRRData::Data(d)) => (None, Some(d.to_vec())),
@@ -74,8 +86,7 @@ pub fn walk_question(pp: &mut ParsedPacket) -> Vec<ObsRec> {
     let mut v = vec![];
     let mut it = pp.into_iter_question();
     while let Some(item) = it {
-        let mut raw_name = vec![];
-        let raw_name_len = item.copy_raw_name(&mut raw_name);
+        let (raw_name, raw_name_len) = raw_name_appended(&item);
         v.push(ObsRec {
             name: item.name(),
             raw_name,
